@@ -45,6 +45,86 @@ def gen(rng, tier):
              "_nt": old is not None and (len(cfg["m"]) < len(ty["f"]) or bool(fault and "path" in fault[1])),
              "_sig": "%s|%s|%s" % (TG.type_sig(ty), mentioned, fault[0] + "@" + fault[1].get("path", "-") if fault else "-")}
         yield c
+    # pre-filled containers of structs (fixed-size arrays, slices, maps, pointers) whose elements the configuration mentions only
+    # in part: the other fields of every element - ignored ones included - keep what they held
+    prng = rng.fork("prefilled-elements")
+    for _ in range(n // 5):
+        efields = [{"n": "H", "tag": "h", "v": "", "ty": TG.T("string")},
+                   {"n": "P", "tag": "", "v": "", "ty": TG.T(prng.pick(["int", "uint16", "float64"]))},
+                   {"n": "T", "tag": ",ignore" if prng.chance(0.6) else "t", "v": "", "ty": TG.T("string")},
+                   {"n": "D", "tag": "", "v": "", "ty": TG.T(prng.pick(["bool", "duration", "int8"]))}]
+        ety = TG.T("struct", f=efields[:2 + prng.below(3)])
+        kind = prng.pick(["array", "array", "slice", "map", "ptr", "struct"])
+        nold = 1 + prng.below(3)
+        def elcfg():
+            kv = []
+            for f in ety["f"]:
+                if "ignore" in f["tag"] or not prng.chance(0.5):
+                    continue
+                k = TG.field_key(f)
+                kv.append((k, TG.good_scalar(prng, f["ty"]["t"], "")[1]))
+            return M(kv)
+        def elold():
+            return {"st": [TG.good_scalar(prng, f["ty"]["t"], "")[0] for f in ety["f"]]}
+        pol = prng.pick(["", "", ",append", ",prepend", ",replace", ",merge"]) if kind in ("slice",) else ""
+        if kind == "array":
+            fty = TG.T("array", n=nold, e=ety); setting = A([elcfg() for _ in range(nold)])
+        elif kind == "slice":
+            fty = TG.T("slice", e=ety); setting = A([elcfg() for _ in range(prng.below(nold + 2))])
+        elif kind == "map":
+            fty = TG.T("map", e=ety); setting = None
+        elif kind == "ptr":
+            fty = TG.T("ptr", e=ety); setting = elcfg()
+        else:
+            fty = ety; setting = elcfg()
+        ty = TG.T("struct", f=[{"n": "L", "tag": "l" + pol, "v": "", "ty": fty}, {"n": "Z", "tag": "", "v": "", "ty": TG.T("string")}])
+        if kind == "array": oldv = {"ar": [elold() for _ in range(nold)]}
+        elif kind == "slice": oldv = {"sl": [elold() for _ in range(nold)]}
+        elif kind == "map":
+            keys = ["k%d" % i for i in range(nold)]
+            oldv = {"mp": {k: elold() for k in keys}}
+            setting = M([(k, elcfg()) for k in keys if prng.chance(0.7)] + ([("fresh", elcfg())] if prng.chance(0.3) else []))
+        elif kind == "ptr": oldv = {"p": elold()}
+        else: oldv = elold()
+        old = {"st": [oldv, {"s": "z0"}]}
+        cfg = M([("l", setting)] + ([("z", S("zz"))] if prng.chance(0.4) else []))
+        uopts = [opt(prng.pick(["Append", "Prepend", "Replace", "ReplaceArr"]))] if prng.chance(0.2) else []
+        yield {"k": "unpack", "ty": ty, "old": old, "from": cfg, "copts": [], "uopts": uopts,
+               "_tag": "frame/prefilled-elements/" + kind, "_nt": True,
+               "_sig": "prefel|%s|%s|%d|%s|%s" % (kind, pol, len(ety["f"]), ",".join(k for k, _ in (setting["m"] if "m" in setting else [])) if isinstance(setting, dict) else "",
+                                                 uopts[0]["o"] if uopts else "")}
+    # the same struct type read under two tag namespaces (StructTag / ValidatorTag), one call after the other in one process:
+    # which fields a call overwrites is decided by the options of that call alone
+    arng = rng.fork("alt-tags")
+    for _ in range(n // 6):
+        pool = arng.shuffle(["x", "y", "z", "w"])
+        nf = 2 + arng.below(3)
+        alts = arng.shuffle(pool[:nf]) if arng.chance(0.7) else [p + "2" for p in pool[:nf]]
+        fs = []
+        for i in range(nf):
+            kind = arng.pick(["int", "string", "uint8", "float64"])
+            f = {"n": "F%d" % i, "tag": pool[i] + (",ignore" if arng.chance(0.1) else ""), "v": "", "ty": TG.T(kind),
+                 "alt": alts[i] + (",ignore" if arng.chance(0.15) else "")}
+            if kind != "string" and arng.chance(0.4):
+                f["v"] = arng.pick(["min=1", "positive", "max=50"]); f["valt"] = arng.pick(["max=100", "nonzero", "min=0"])
+            fs.append(f)
+        ty = TG.T("struct", f=fs)
+        old = {"st": [TG.good_scalar(arng, f["ty"]["t"], "")[0] for f in fs]}
+        names = sorted(set(pool[:nf] + [a for a in alts]))
+        kv = []
+        for nm in names:
+            if arng.chance(0.5):
+                k = arng.pick([f["ty"]["t"] for f in fs if TG.field_key(f) == nm or f["alt"].split(",")[0] == nm])
+                kv.append((nm, TG.good_scalar(arng, k, "")[1] if arng.chance(0.8) else S("7")))
+        alt_opts = [opt("StructTag", "alt")] + ([opt("ValidatorTag", "valt")] if arng.chance(0.5) else [])
+        first_default = arng.chance(0.6)
+        c = {"k": "unpack", "ty": ty, "old": old, "from": M(kv), "copts": [],
+             "uopts": alt_opts if first_default else [], "warmOpts": [] if first_default else alt_opts,
+             "_tag": "frame/alt-tags/" + ("default-then-alt" if first_default else "alt-then-default"), "_nt": True,
+             "_sig": "alt|%d|%s|%s|%s" % (nf, first_default, ",".join(k for k, _ in kv), len(alt_opts))}
+        if arng.chance(0.15):
+            del c["warmOpts"]
+        yield c
     # named types with Validate / InitDefaults methods next to their method-less twins
     crng = rng.fork("catalog")
     for _ in range(n // 4):
